@@ -11,7 +11,10 @@ MC      MC_Xfr (Xfr.tla on itself): every AXFR / IXFR stream of the bounded univ
 GEN     Gen_Xfr (= MC_Xfr with EmitBehaviours, sharded, invariants on) exports every behaviour with the expected observation -> `xfr replay`: envelopes
         framed with the real Pack (+ real TsigGenerate chain) onto a scripted in-memory connection (closed or
         silent at the end; cut at 5 octet positions), real Transfer.In, channel drained: records per envelope,
-        error, channel closed, connection closed, octets left unread.
+        error, channel closed, connection closed, octets left unread.  Every behaviour is delivered as fed, one
+        octet per read, and with a segment boundary between the two length octets of every envelope; a sample
+        with one boundary at EVERY stream offset; a sample with the first / middle / last envelope padded (filler
+        TXT in the additional section) to 4095, 4096, 4097, 4098, 16384 and 65000 wire octets.
 TV in   `xfr record in`: random transfers beyond the bounds (<= 40 records, <= 5 difference sequences, empty
         envelopes, <= 2 faults) -> Trace_Xfr predicts the observation.
 TV out  `xfr record out`: real dns.Server on an in-memory listener, handler = Transfer.Out, one to three requests
@@ -51,6 +54,8 @@ Mutants (checks/mutants/C15, each must give exit 1):
   axfr-rcode-first-envelope-only  (reverts fix 6af98ba) GEN (rcode-not-reported:envelope>1)
   ixfr-serial-integer-compare     (reverts fix a3ad563) GEN (incomplete-reported-complete / uptodate-answer-not-recognised)
   mac-truncation-accepted         (seeded change C15-2) GEN (fault-not-reported:macempty / mac1 / mac9 / mac10), TV in
+  readmsg-small-buffer-retry      (seeded change C15-8: envelopes > 4096 octets mis-read) GEN (padded-envelope sample), TV in
+  length-prefix-single-read       (seeded change C15-9) GEN ("prefix" / "byte" segmentation of every behaviour), TV in
   server-timersonly-not-reset     (seeded change C15-3) TV out (tsig judge: accepts-invalid:mac:server-out on the 2nd answer of a connection)
 """
 import os, json
@@ -115,10 +120,10 @@ def run(ctx):
     binp = ctx.build("xfr")
     tsigbin = ctx.build("tsig")
     if ctx.quick:
-        sh = [(ctx.seed + 2 * i) % 8 for i in range(4)]
+        sh = [(ctx.seed + 4 * i) % 16 for i in range(4)]
         vp.parallel([
             lambda: mc(ctx, SMALL),
-            lambda: gen(ctx, binp, QUICK, 8, sh),
+            lambda: gen(ctx, binp, QUICK, 16, sh),
             lambda: gen(ctx, binp, EMPTQ, 4, [ctx.seed % 4]),
             lambda: tv_in(ctx, binp, 400, 2),
             lambda: tv_out(ctx, binp, tsigbin, 40, 1),
